@@ -212,6 +212,26 @@ def coq_assumptions(group, module, theorems, workdir, extra_q=()):
     return res
 
 
+def coq_chk(group, module, extra_q=(), timeout=3000):
+    """Independent re-check of the compiled .vo files (thorough tier). Returns (ok, one-line summary)."""
+    cmd = ["coqchk", "-silent", "-o"] + coq_qflags(group)
+    for g in extra_q:
+        cmd += ["-Q", os.path.join(COQ, g), g]
+    cmd.append("%s.%s" % (group, module))
+    with Lock("coq-" + group):
+        rc, out = sh(cmd, cwd=os.path.join(COQ, group), timeout=timeout)
+    if rc != 0:
+        return False, out
+    m = re.search(r"\* Axioms:(.*?)\n\s*\n\* Constants/Inductives relying on type-in-type:(.*?)\n\s*\n"
+                  r"\* Constants/Inductives relying on unsafe \(co\)fixpoints:(.*?)\n\s*\n\* Inductives whose positivity is assumed:(.*?)\n", out + "\n", re.S)
+    if not m:
+        return False, "cannot parse coqchk summary:\n" + out[-1500:]
+    parts = [re.sub(r"\s+", " ", x).strip() for x in m.groups()]
+    if parts[1] != "<none>" or parts[2] != "<none>" or parts[3] != "<none>":
+        return False, "coqchk reports disabled checks: " + " | ".join(parts)
+    return True, "axioms %s; type-in-type <none>; unsafe fixpoints <none>; assumed positivity <none>" % parts[0]
+
+
 def coq_theorem_names(path):
     src = strip_coq_comments(open(path).read())
     return re.findall(r"^\s*(?:Theorem|Lemma|Example|Corollary|Fact|Remark|Proposition)\s+([A-Za-z0-9_']+)", src, re.M)
@@ -410,6 +430,14 @@ class Check:
             self.coq_broken = (group, str(e))
             return False
         self.add_obligations(nall)
+        if self.tier == "thorough" and os.environ.get("VERIF_NO_COQCHK") != "1":
+            ok2, rep = coq_chk(group, module, extra_q=extra_q)
+            self.cov["checker_cmd"] += " ; coqchk -silent -o (group %s)" % group
+            if not ok2:
+                self.coq_broken = (group, "coqchk rejected the compiled development:\n" + rep[-2500:])
+                self.cov["discharged"] = 0
+                return False
+            self.trusted("coqchk -o %s.%s: %s" % (group, module, rep))
         self.cov.setdefault("property_theorems", [])
         for t in theorems:
             a = ass[t]
